@@ -756,6 +756,17 @@ var specs = map[string]spec{
 		}},
 }
 
+// scaled applies the development knob VERIF_X_SCALE (a factor on scenario counts).
+func scaled(n int) int {
+	if v := os.Getenv("VERIF_X_SCALE"); v != "" {
+		var f float64
+		if _, err := fmt.Sscan(v, &f); err == nil && f > 0 {
+			return max(1, int(float64(n)*f))
+		}
+	}
+	return n
+}
+
 // Run returns the check function for one of C19, C01, C15.
 func Run(id string) core.CheckFunc {
 	return func(c *core.Ctx) (*core.Outcome, error) {
@@ -826,6 +837,7 @@ func (e *Engine) check(c *core.Ctx, sp spec) (*core.Outcome, error) {
 		if c.Tier == "thorough" {
 			n = sp.nThor[mi]
 		}
+		n = scaled(n)
 		for i := 0; i < n; i++ {
 			sc := sampleScenario(rng, m, i, c.Tier == "thorough")
 			scs = append(scs, sc)
